@@ -239,10 +239,16 @@ def c04e(ctx, tu):
         ctx.ob("C04.e", A["decommission"], ok, pattern=fn.pat, unit=tu.name, inst=fn.q, detail="" if ok else why)
     # both lists of a mock function are decommissioned when it dies
     for fn in tu.need("trompeloeil::expectations::~expectations", 3):
-        recvs = [erase(e["recv"][1]) for b, e in fn.events()
+        # (the lists, and the code that decommissions them, may live in a base class of the holder)
+        bodies = [fn]
+        for e in [e for b, e in fn.events() if e["e"] == "dtor" and e.get("kind") == "base"]:
+            t = tu.fns.get(e.get("callee"))
+            if t is not None and t.has_body and t.is_lib:
+                bodies.append(t)
+        recvs = [lib.holder_field(tu, e["recv"][1]) for f2 in bodies for b, e in f2.events()
                  if e["e"] == "call" and qe(e) == A["decommission"] and isinstance(e.get("recv"), list)
                  and e["recv"][:1] == ["member"]]
-        ok = sorted(recvs) == ["trompeloeil::expectations::active", "trompeloeil::expectations::saturated"]
+        ok = sorted(str(r) for r in recvs) == ["active", "saturated"]
         ctx.ob("C04.e", "trompeloeil::expectations::~expectations", ok, pattern=fn.pat, unit=tu.name, inst=fn.q,
                detail="" if ok else "a dying mock function must decommission both its active and its saturated list; "
                "found " + str(recvs))
